@@ -195,7 +195,7 @@ Theorem definitions_see_bipartitions_only :
   forall X A boots boots',
     Forall2 (same_bips X) boots boots' ->
     fbp_spec X A boots = fbp_spec X A boots' /\ tbe_spec X A boots = tbe_spec X A boots'.
-Proof. intros X A boots boots' F. exact (conj (fbp_spec_bips X A boots boots' F) (tbe_spec_bips X A boots boots' F)). Qed.
+Proof. exact specs_bips. Qed.
 Print Assumptions definitions_see_bipartitions_only.
 
 (** * tip branches receive no support *)
